@@ -140,8 +140,14 @@ Definition cli_argv (cwd inp : string) (out : option string) : list string :=
   [ "geophires_x"; absolute cwd inp;
     match out with Some o => absolute cwd o | None => to_str (join (parse cwd) (parse "HDR.out")) end ].
 
-(* GeophiresXClient.get_geophires_result: argv = ['', input path, output path] (absolute temp paths) *)
-Definition client_argv (inp out : string) : list string := [ ""; inp; out ].
+(* GeophiresXClient.get_geophires_result called in cwd (code after fix fa4a753):
+     sys.argv = ['', Path(input_params.as_file_path()).absolute(), input_params.get_output_file_path()]   (output: absolute temp path) *)
+Definition client_argv (cwd inp out : string) : list string := [ ""; absolute cwd inp; out ].
+(* before the fix the input path was passed on as given (kept as the named pinned behaviour) *)
+Definition client_argv_pinned (inp out : string) : list string := [ ""; inp; out ].
+
+(* the input file a run reads: sys.argv[1] is opened AFTER main() has changed into the package directory *)
+Definition input_file (pkg : string) (argv : list string) : string := absolute pkg (nth 1 argv EmptyString).
 
 (* outcome of a process: exit status, files written, report text *)
 Record outcome := { o_exit : Z; o_files : option files; o_report : option string }.
@@ -176,7 +182,7 @@ Section EntryPoints.
 
   (* GeophiresXClient from any working directory: SystemExit is caught and re-raised as RuntimeError *)
   Definition client (cwd pkg inp out : string) (input_text : string) : outcome :=
-    finish 1 (main_files cwd pkg (client_argv inp out)) input_text true.
+    finish 1 (main_files cwd pkg (client_argv cwd inp out)) input_text true.
 
   (* GEOPHIRESv3.main() called directly with sys.argv = ['', inp, out]: the SystemExit reaches the caller as an exception *)
   Definition direct (cwd pkg : string) (argv : list string) (input_text : string) (dir_ok : bool) : outcome :=
@@ -261,14 +267,18 @@ Section HipEntryPoints.
     hip_main pkg (EmptyString :: inp :: match out with Some o => [o] | None => [] end) dir_ok.
   Definition hip_status (o : houtcome) : Z := if ho_raises o then 1 else 0.
 
-  (* HipRaXClient.get_hip_ra_result: argv = ['', input path as given, absolute temp output]; afterwards HipRaResult opens
-     the report, which raises when main() did not write it *)
-  Definition hip_client (pkg inp out : string) (dir_ok : bool) : houtcome :=
-    let o := hip_main pkg [EmptyString; inp; out] dir_ok in
+  (* HipRaXClient.get_hip_ra_result(HipRaInputParameters(inp)) with the parameter object built in cwd (code after fix fa4a753:
+     the input path is stored as Path(inp).absolute()); argv = ['', that path, absolute temp output]; afterwards HipRaResult
+     opens the report, which raises when main() did not write it *)
+  Definition hip_client_of (argv1 : string) (pkg out : string) (dir_ok : bool) : houtcome :=
+    let o := hip_main pkg [EmptyString; argv1; out] dir_ok in
     match ho_report_at o with
     | Some _ => o
     | None => {| ho_raises := true; ho_report_at := None; ho_text := None |}
     end.
+  Definition hip_client (cwd pkg inp out : string) (dir_ok : bool) : houtcome := hip_client_of (absolute cwd inp) pkg out dir_ok.
+  (* before the fix: the path as given (kept as the named pinned behaviour) *)
+  Definition hip_client_pinned (pkg inp out : string) (dir_ok : bool) : houtcome := hip_client_of inp pkg out dir_ok.
 End HipEntryPoints.
 
 (* observed behaviour of one HIP-RA-X run against the model: ok_inputs = canonical paths of the existing, valid input files *)
